@@ -110,7 +110,7 @@ func diffLines(a, b string) string {
 func TestPropConvergence(t *testing.T) {
 	sub := stats.NewSub("convergence-vs-fresh-gateway", "rapid: history of 2-10 events over two clusters (create/update with a new valid version: servers, disabled flags, policies, schemas incl. type changes and removals, feature-gate annotation added/changed/dropped, logging, serving cert / client CA / server names; one upsert in three takes annotations / schemas / servers / policies / serving material / logging back from an EARLIER version of the cluster exactly as they were; delete; duplicate delivery; a version whose sync fails (unusable client CA / key pair stored past admission) with other fields changed too, later superseded by a valid one), optionally followed by an admission-race episode (a version claiming a name owned by the other cluster fails and is retried after newer versions were applied) and an intruder episode (an object NAMED like a server name one of the clusters owns is stored, refused by the controller and deleted again, with optional retries before and after the deletion); oracle: fingerprint(live) == fingerprint(fresh controller with only the latest objects); non-trivial = a field is removed or restored between versions of a cluster, or a retry of a superseded version is delivered after a newer one; distinct by FNV-64 of the op trace")
 	known := findings.Open(staleRetryFinding)
-	stats.Check(t, stats.N(1500, 8000), func(t *rapid.T) {
+	stats.Check(t, stats.N(3000, 12000), func(t *rapid.T) {
 		live := ctlbox.New()
 		defer live.Close()
 		stored := map[string]*proxyv1alpha1.UpstreamCluster{}
